@@ -47,6 +47,12 @@ func runC03(c *an.Ctx) {
 	r037(c)
 	r045as(c, "R03.8") // forwarding loops drop events only by configuration (else the last event is not the final value)
 	c.Min("R03.8", 2)
+	// every committed write publishes exactly one event, and merging queued events for a slow reader keeps the
+	// fold of the stream equal to the store (both are necessary for the folded view to converge)
+	r041as(c, "R03.9")
+	r091as(c, "R03.10")
+	c.Min("R03.9", 3)
+	c.Min("R03.10", 32)
 	c.Min("R03.1", 2)
 	c.Min("R03.2", 3)
 	c.Min("R03.3", 3)
